@@ -44,7 +44,8 @@ func verifScaleBody(requests int) {
 		key := "p/" + strconv.Itoa(pc.ReplicaNum)
 		if verifChooseK("completed."+key, 2) == 1 {
 			completed[key] = true
-			w.behav[nm] = &vBehav{codes: []int{0}}
+			w.behavKey[key] = &vBehav{codes: []int{0}}
+			_ = nm
 		}
 	}
 	r := vRunner(prj, false)
@@ -131,6 +132,11 @@ func verifScaleBody(requests int) {
 				verifAssert("added.replica.launched.once", is == was+1 && alive == 1)
 			default:
 				verifAssert("removed.replica.terminated", alive == 0 && is == was)
+				// a replica added later under this number is a new one (runs until stopped)
+				delete(completed, key)
+				w.mu.Lock()
+				delete(w.behavKey, key)
+				w.mu.Unlock()
 			}
 		}
 	}
